@@ -1,5 +1,6 @@
 """C07 - differences: panic-freedom, since = -until, zoned differences are zone-aware (narrow)."""
-from ..term import Terms, show, alts, is_call, walk
+from ..term import Terms, show, alts, is_call, walk, inline_helpers
+from .. import mir
 from ..rules_e1 import run_e1, by_names
 from ..rules_dep import run_dep
 
@@ -79,6 +80,56 @@ def run(ctx, rep):
             rep.violation("TZ-DEP", key, "a non-error return does not depend on the time zone: %s" % show(a, maxd=4)[:300], f.loc())
     rep.floor("TZ-DEP returns", n, 3)
     until_search(rep, prog)
+    round_largest(rep, prog)
+
+
+def round_largest(rep, prog, rule="ROUND-LARGEST"):
+    """The difference kernel balances up to the effective largest unit (explicit or the type's documented default); the
+    rounding step that follows re-balances, and Span::round's own default (max(smallest, largest non-zero unit of the span))
+    is a different one: 59m40s rounded to minutes becomes 60m, not 1h."""
+    rep.rule(rule, "in until/since of every datetime type, the configuration handed to Span::round has its largest unit set "
+                   "(SpanRound::largest) from a value that depends on the configured largest unit (and the rule notes "
+                   "whether it is the helper the difference kernel uses): left unset, Span::round balances only up to the largest non-zero unit of the "
+                   "unrounded span, so a rounded-up difference is not balanced to the documented default largest unit")
+    n = 0
+    for ty in TYPES:
+        for m in ("until", "since"):
+            f = prog.jiff(ty + "::" + m)
+            key = "%s::%s" % (ty.split("::")[-1], m)
+            r = Terms(f).returns()
+            rounds = [x for x in walk(r) if is_call(x, "span::Span::round")]
+            if not rounds:
+                r = inline_helpers(r, prog, depth=1, pred=lambda g: "_with_largest_unit" not in g.name)
+                rounds = [x for x in walk(r) if is_call(x, "span::Span::round")]
+            if not rounds:
+                rep.violation(rule, key, "anchor missing: no call of Span::round in the rounding branch", f.loc())
+                continue
+            kernels = {x[1] for x in walk(r) if x and x[0] == "call" and "_with_largest_unit" in x[1]}
+            kcalls = set()
+            for k in kernels:
+                g = prog.fns.get("jiff::" + k)
+                if g is not None:
+                    kcalls |= {t.get("path", "") for _bi, t in mir.iter_calls(g)}
+            for x in rounds:
+                n += 1
+                cfg = x[2][1] if len(x[2]) > 1 else None
+                sets = [y for y in walk(cfg) if y and y[0] == "call" and "SpanRound" in y[1] and y[1].endswith("::largest")]
+                if not sets:
+                    rep.violation(rule, key, "Span::round is given the configuration without a largest unit (%s): it then balances up to "
+                                  "max(smallest, largest non-zero unit of the span) and not to the type's default largest unit"
+                                  % show(cfg, maxd=3)[:160], f.loc())
+                    continue
+                u = sets[0][2][1]
+                dep = any(y and y[0] == "call" and "SpanRound" in y[1] and y[1].endswith("::get_largest")
+                          for d in (0, 1, 2) for y in walk(inline_helpers(u, prog, depth=d)))
+                same = u[0] == "call" and u[1] in kcalls
+                if not dep:
+                    rep.violation(rule, key, "the largest unit given to Span::round (%s) does not depend on the configured largest unit"
+                                  % show(u, maxd=3)[:160], f.loc())
+                else:
+                    rep.ok(rule, key, how="largest := %s%s" % (show(u, maxd=2)[:80], " (same helper as the kernel)" if same
+                                                               else " (agreement with the kernel's default not decided)"))
+    rep.floor(rule + " rounding calls", n, 10)
 
 
 def until_search(rep, prog, rule="UNTIL-SEARCH"):
